@@ -106,6 +106,29 @@ def FA(vs, body, pats):
     return z3.ForAll(vs, body, patterns=ps)
 
 
+_INV = {}
+
+
+def inv_fn(name, *sorts):
+    if name not in _INV:
+        _INV[name] = z3.Function(name, *sorts)
+    return _INV[name]
+
+
+def distinct_by(h: H, L, keyarr, key_of, tag, guard=None):
+    """members of list L have pairwise different keys.  goal: pairwise; hyp: an inverse function from keys back to members
+    (INV(bag row of L, key array, key(x)) == x) — a Skolemised consequence of the pairwise form"""
+    x, y = A('x!' + tag), A('y!' + tag)
+    g = guard or (lambda q: z3.BoolVal(True))
+    row = h.bagof(L)
+    ksort = key_of(x).sort()
+    F = inv_fn('INV!%s!%s' % (tag.split('.')[0], ksort.name()), row.sort(), keyarr.sort(), ksort, Addr)
+    goal = FA([x, y], z3.Implies(z3.And(h.cnt(L, x) > 0, h.cnt(L, y) > 0, g(x), g(y), key_of(x) == key_of(y)), x == y), [(h.cnt(L, x), h.cnt(L, y))])
+    hyp = FA([x], z3.Implies(z3.And(h.cnt(L, x) > 0, g(x)), F(row, keyarr, key_of(x)) == x), [h.cnt(L, x)])
+    return Dual(goal, hyp)
+
+
+
 NODE_LISTS = ('children', 'parents', 'compromised_by')     # containers a node owns exclusively (tags may be shared with node.attributes)
 ATT_LISTS = ('entry_points', 'reached_attack_steps')
 GRAPH_CONT = ('nodes', 'attackers', '_id_to_node', '_full_name_to_node', '_id_to_attacker')
@@ -141,8 +164,7 @@ def wf_graph(h: H, G, parts=('W0', 'W1', 'W2', 'W3', 'W4', 'W5')):
     if 'W1' in parts:
         out.append(('W1.ids', FA([n], z3.Implies(is_node(h, G, n), z3.And(is_VInt(h.f('id', n)), v_i(h.f('id', n)) < h.f('next_node_id', G))),
                                  [h.cnt(NL, n)])))
-        out.append(('W1.distinct', FA([n, m], z3.Implies(z3.And(is_node(h, G, n), is_node(h, G, m), h.f('id', n) == h.f('id', m)), n == m),
-                                      [(h.cnt(NL, n), h.cnt(NL, m))])))
+        out.append(('W1.distinct', distinct_by(h, NL, h.arr['f_id'], lambda q: h.f('id', q), 'nid')))
         out.append(('W1.nodup', FA([n], h.cnt(NL, n) <= 1, [h.cnt(NL, n)])))
     if 'W2' in parts:
         D = h.f('_id_to_node', G)
@@ -165,8 +187,7 @@ def wf_graph(h: H, G, parts=('W0', 'W1', 'W2', 'W3', 'W4', 'W5')):
     if 'W4' in parts:
         out.append(('W4.ids', FA([a], z3.Implies(is_att(h, G, a), z3.And(is_VInt(h.f('id', a)), v_i(h.f('id', a)) < h.f('next_attacker_id', G))),
                                  [h.cnt(AL, a)])))
-        out.append(('W4.distinct', FA([a, b], z3.Implies(z3.And(is_att(h, G, a), is_att(h, G, b), h.f('id', a) == h.f('id', b)), a == b),
-                                      [(h.cnt(AL, a), h.cnt(AL, b))])))
+        out.append(('W4.distinct', distinct_by(h, AL, h.arr['f_id'], lambda q: h.f('id', q), 'tid')))
         out.append(('W4.nodup', FA([a], h.cnt(AL, a) <= 1, [h.cnt(AL, a)])))
         D = h.f('_id_to_attacker', G)
         out.append(('W4.idx.complete', FA([a], z3.Implies(is_att(h, G, a), z3.And(h.has(D, h.f('id', a)), h.val(D, h.f('id', a)) == VRef(a))),
